@@ -167,6 +167,15 @@ def eulerIntrinsic (l : List (Nat × α × α)) : M3 α :=
 /-- the default convention `"zyx"`: `Rx(c) · Ry(b) · Rz(a)` for angles `(a, b, c)` -/
 def eulerZYX (ca sa cb sb cc sc : α) : M3 α := (rotX cc sc).mul ((rotY cb sb).mul (rotZ ca sa))
 
+/-- `euler_from_rotationmatrix`, 2×2 input: `temp_matrix = np.eye(3); temp_matrix[:2, :2] = rotation_matrix` -/
+def embed2 (m : M2 α) : M3 α := ⟨m.b00, m.b01, 0, m.b10, m.b11, 0, 0, 0, 1⟩
+
+/-- upper-left 2×2 block -/
+def M3.block2 (A : M3 α) : M2 α := ⟨A.a00, A.a01, A.a10, A.a11⟩
+
+/-- planar rotation `[[c, -s], [s, c]]` -/
+def rot2 (c s : α) : M2 α := ⟨c, -s, s, c⟩
+
 /-! ## QR branch of `get_rotation_matrices` (any dimension, matrices as lists of rows) -/
 
 def negLast : List α → List α
